@@ -91,6 +91,20 @@ def canonical(root):
             containers[id(v)] = len(containers)
             keep.append(v)
             return ["method", v.__func__.__qualname__, val(v.__self__, depth + 1)]
+        if isinstance(v, types.FunctionType):
+            # a function is what it computes from: its code's name and the objects its closure refers to
+            k = containers.get(id(v))
+            if k is not None:
+                return ["shared_container", k]
+            containers[id(v)] = len(containers)
+            keep.append(v)
+            cells = []
+            for c in v.__closure__ or ():
+                try:
+                    cells.append(val(c.cell_contents, depth + 1))
+                except ValueError:
+                    cells.append(["empty_cell"])
+            return ["function", v.__qualname__, cells]
         if isinstance(v, functools.partial):
             k = containers.get(id(v))
             if k is not None:
